@@ -94,6 +94,80 @@ def observe(obj, keys, dflt):
     return out
 
 
+REAL = 'correspondence mdict on the tables supp itself builds (every MergedDict constructed while linting real files: model = real object)'
+
+
+def real_tables(check, S, MD, limit):
+    """the MergedDict objects supp's own analyses construct (captured from outside by wrapping the constructor) while linting
+    the repository's files: the shapes that really occur (chain lengths, overlap), observed through the same methods"""
+    import glob
+    import os
+    captured = []
+    orig = MD.__init__
+
+    def init(self, *dicts):
+        orig(self, *dicts)
+        captured.append(self)
+    files = sorted(glob.glob(os.path.join(common.REPO, 'supp', '*.py')))
+    MD.__init__ = init
+    try:
+        project = S['project'].Project([common.REPO])
+        for fn in files:
+            try:
+                S['linter'].lint(project, open(fn).read(), fn)
+            except Exception:  # noqa  -- totality is C08
+                pass
+    finally:
+        MD.__init__ = orig
+    st = {'files_linted': len(files), 'constructed': len(captured), 'compared': 0, 'skipped_non_dict_part': 0, 'max_parts': 0,
+          'parts_histogram': {}, 'lookups': 0, 'shadowed_hits': 0, 'disagreements': 0}
+    rng = check.rng
+    if len(captured) > limit:
+        captured = rng.sample(captured, limit)
+    kid, vid = {}, {}
+    reqs, reals = [], []
+    for obj in captured:
+        parts = obj._dicts
+        if any(type(d) is not dict for d in parts):
+            st['skipped_non_dict_part'] += 1
+            continue
+        enc = [[[kid.setdefault(k, len(kid)), vid.setdefault(id(v), len(vid))] for k, v in d.items()] for d in parts]
+        allk = [k for d in parts for k in d]
+        seen, shadowed = set(), []
+        for k in allk:
+            if k in seen and k not in shadowed:
+                shadowed.append(k)
+            seen.add(k)
+        keys = shadowed[:6] + (rng.sample(allk, 10) if len(allk) > 10 else list(allk)) + ['no_such_name_%d' % i for i in range(2)]
+        sentinel = object()
+        real = {'getitem': [], 'contains': [k in obj for k in keys],
+                'items': [[kid.setdefault(k, len(kid)), vid.setdefault(id(v), len(vid))] for k, v in obj.iteritems()],
+                'iter': [kid.setdefault(k, len(kid)) for k in obj]}
+        for k in keys:
+            v = obj.get(k, sentinel)
+            real['getitem'].append(None if v is sentinel else vid.setdefault(id(v), len(vid)))
+            st['shadowed_hits'] += sum(1 for d in parts if k in d) > 1
+        reqs.append({'op': 'mdict', 'args': [{'d': d} for d in enc], 'keys': [kid.setdefault(k, len(kid)) for k in keys], 'default': 0})
+        reals.append(real)
+        n = len(parts)
+        st['max_parts'] = max(st['max_parts'], n)
+        b = str(n) if n < 8 else ('8-15' if n < 16 else '16+')
+        st['parts_histogram'][b] = st['parts_histogram'].get(b, 0) + 1
+        st['lookups'] += len(keys)
+    first = None
+    for req, real, rep in zip(reqs, reals, common.ask_driver(reqs, exe='drv_mdict') if reqs else []):
+        st['compared'] += 1
+        model = {k: rep.get(k) for k in real}
+        if 'driver_error' in rep or model != real:
+            st['disagreements'] += 1
+            first = first or ('%d parts: real %r model %r' % (len(req['args']), {k: real[k] for k in real if real[k] != model.get(k)},
+                                                              {k: model.get(k) for k in real if real[k] != model.get(k)}))
+    check.oblige(REAL, st['disagreements'] == 0 and st['compared'] > 0,
+                 '' if st['disagreements'] == 0 and st['compared'] > 0 else
+                 ('%d of %d tables differ; first: %s' % (st['disagreements'], st['compared'], (first or '')[:800])))
+    return st
+
+
 def run(check, S=None):
     quick = check.tier == 'quick'
     rng = check.rng
@@ -186,6 +260,10 @@ def run(check, S=None):
     oko = st['oracle_disagreements'] == 0
     check.oblige(ORACLE, oko, '' if oko else '%d objects differ; first: %s' % (st['oracle_disagreements'], first_bad_oracle))
     st['distinct_shapes'] = len(distinct)
+    try:
+        st['real_tables'] = real_tables(check, S, MD, 400 if quick else 4000)
+    except Exception as e:  # noqa
+        check.oblige(REAL, False, 'the stream could not run: %r' % (e,))
     check.extra['mdict'] = st
     check.cov['evaluations'] += st['lookups']
     check.assumptions += [
